@@ -135,7 +135,7 @@ def unit_long_seq(a):
             base = "".join("CAOU"[(i * 7 + i // 3) % 4] for i in range(L))
             pos_sets = [(p,) for p in range(L)] + [(p, p + 1) for p in range(L - 1)] + [(p, p + 1, p + 2) for p in range(0, L - 2, 2)] + \
                        [(p, q) for p in range(0, L, 3) for q in range(p + 2, L, 5)] + [(0, 1, L - 2, L - 1), tuple(range(L))] if L <= 40 else \
-                       [(L - 2, L - 1), (0, L - 1), (7, 8), (L // 2, L // 2 + 1), tuple(range(1, L))]
+                       [(L - 2, L - 1), (0, L - 1), (7, 8), (L // 2, L // 2 + 1), tuple(range(1, L)), (L - 1,), (255, 256), (256,), (511, 512, 513), (512,), (1024,), tuple(range(500, min(L, 530)))]
             for ps in pos_sets:
                 seq = "".join("J" if i in ps else c for i, c in enumerate(base))
                 for cut1, cut2 in ((0, 0), (0, 2), (1, 3), (3, 3), (L // 2, L // 2), (2, L - 1)):
@@ -305,7 +305,7 @@ def run(ctx):
     ns = 16
     maxlen = 5 if q else 7
     ctx.units("type-sequences-exhaustive", unit_seq, [{"maxlen": maxlen, "shard": i, "nshards": ns} for i in range(ns)], procs=ns)
-    ctx.units("type-sequences-long", unit_long_seq, [{"lengths": list(range(8, 21)) + [31, 32, 33] + ([] if q else list(range(21, 31)) + [64, 65, 257]), "shard": i, "nshards": ns} for i in range(ns)], procs=ns)
+    ctx.units("type-sequences-long", unit_long_seq, [{"lengths": list(range(8, 21)) + [31, 32, 33, 511, 512, 513, 514, 1025] + ([] if q else list(range(21, 31)) + [64, 65, 257, 2049, 4097]), "shard": i, "nshards": ns} for i in range(ns)], procs=ns)
     ctx.units("cross-dialect-shared-keywords", unit_cross, [{"shard": i, "nshards": ns} for i in range(ns)], procs=ns)
     ctx.units("dialects-through-parser", unit_dialects, [{"shard": i, "nshards": ns, "variants": [0, 1] if q else [0, 1, 2, 3, 4, 5]} for i in range(ns)], procs=ns)
     ctx.units("interpreter-modes", unit_modes, [{}])
